@@ -76,6 +76,7 @@ fn bookkeeping(ctx: &mut Ctx) {
     let (o2, ops2) = (out.clone(), ops.clone());
     let peer_type = kind.peers()[0];
     let idx = ctx.idx;
+    let unlink_kind = [std::io::ErrorKind::PermissionDenied, std::io::ErrorKind::NotFound, std::io::ErrorKind::Other][(ctx.idx % 3) as usize];
     rt::task::spawn_local("app", async move {
         let mut sock = AnySock::new(kind, None);
         let mut other = AnySock::new(kind, None);
@@ -156,6 +157,8 @@ fn bookkeeping(ctx: &mut Ctx) {
                     // any more, so it is not in the bind set any more either
                     let failing = *unlink_fails && text.starts_with("ipc://");
                     if failing {
+                        // the removal is refused, finds the file gone (a renamed directory), or fails otherwise
+                        rt::rt().net.borrow_mut().fail_remove_kind = unlink_kind;
                         rt::rt().net.borrow_mut().fail_remove_file = 1;
                     }
                     match sock.unbind(ep).await {
